@@ -45,7 +45,7 @@ VARIABLES l, hits
 
 Range(s) == {s[i] : i \in DOMAIN s}
 
-Formulas == {"NoLeakToXR.ClaimOnly", "NoLeakToXR.ConnSecret", "NoLeakToXR.Other", "UserSpecPropagated",
+Formulas == {"SyncSucceeds", "NoLeakToXR.ClaimOnly", "NoLeakToXR.ConnSecret", "NoLeakToXR.Other", "UserSpecPropagated",
              "SelectionPropagated", "RevisionToXR.OnlyIfManual", "LabelsAnnotations.Propagated",
              "LabelsAnnotations.ReservedNotPropagated", "ExternalNameToXR", "XRSidePreserved.ResourceRefs",
              "XRSidePreserved.ConnSecret", "XRSidePreserved.ExternalName", "XRSidePreserved.Ownership", "ClaimRefSet", "UserStatusToClaim",
@@ -65,6 +65,11 @@ Check(i) ==
       sy == e.syncer
       id == e.id
   IN
+  \* no fault is injected in these vectors: a sync that fails (e.g. on an apply conflict with another field manager that it
+  \* does not force) fails again on every retry, and nothing the claim says reaches the XR any more
+  \* (added after the seeded change C07-m10 - the claim's apply of the XR without ForceOwnership - was missed: the propagation
+  \* formulas below speak about syncs that succeeded)
+  /\ (ok \/ Viol("SyncSucceeds", i))
   /\ (NoLeakToXR_ClaimOnly(X1) \/ Viol("NoLeakToXR.ClaimOnly", i))
   /\ (NoLeakToXR_ConnSecret(X0, X1) \/ Viol("NoLeakToXR.ConnSecret", i))
   /\ (NoLeakToXR_Other(C0, X0, X1) \/ Viol("NoLeakToXR.Other", i))
@@ -99,7 +104,8 @@ Hit(f, i) ==
       X1 == Range(e.xr1)
       ok == e.err = "none"
   IN
-  CASE f = "NoLeakToXR.ClaimOnly"      -> Under(C0, ClaimOnly) # {}
+  CASE f = "SyncSucceeds"              -> TRUE
+    [] f = "NoLeakToXR.ClaimOnly"      -> Under(C0, ClaimOnly) # {}
     [] f = "NoLeakToXR.ConnSecret"     -> Under(C0, ConnSettings) # {}
     [] f = "NoLeakToXR.Other"          -> SpecOf(X1) # {}
     [] f = "UserSpecPropagated"        -> ok /\ \E c \in SpecOf(C0) : UserSpecTop(Top(c.p)) /\ c \notin X0
